@@ -1,5 +1,6 @@
 """Shared by checks/c11.py and checks/c01.py: harness observations (zz_verif_c11_test.go) -> Coq terms
 for Neg/C11Run.v, the implementation-side monitors (the properties' own statements), case keys."""
+import json
 import re
 import vlib
 from vlib import cN, cNlist, cbool
@@ -525,3 +526,37 @@ def monitor_hook(c):
 
 def custom_suite(c):
     return bool(c["c"].get("custom") or c["s"].get("custom"))
+
+
+# ----------------------------------------------------------------- bin/check Cnn --replay <file>
+
+def replay_case(chk, path, tags, untouched=False):
+    """rerun the single association of a stored finding through TestVerifC11X; returns the observed case (or None)"""
+    with open(path) as f:
+        body = json.load(f)
+    case = (body.get("replay") or {}).get("case") or {}
+    if "c" not in case or "s" not in case:
+        chk.broken("replay file carries no option-set pair (model / build findings are rerun with bin/check)", path)
+        return None, body
+
+    def full(d):
+        d = dict(d)
+        d.setdefault("cid", -1)
+        return json.dumps(d)
+    env = {"C11X_C": full(case["c"]), "C11X_S": full(case["s"]), "C11X_GEN": case.get("gen", "x"),
+           "C11X_RESUME": "1" if case.get("resume") else "", "VERIF_SEED": chk.seed, "VERIF_TIER": chk.tier}
+    if case.get("steer") and not untouched:
+        env["C11X_STEER"] = json.dumps(case["steer"])
+    if case.get("mask"):
+        env["C11X_MASK"] = json.dumps(case["mask"])
+    if case.get("seed"):
+        env["C11X_SEED_C"], env["C11X_SEED_S"] = full(case["seed"]["c"]), full(case["seed"]["s"])
+    out = vlib.out_path("c11x")
+    env["VERIF_OUT"] = out
+    rc, o = vlib.go_test(".", "^TestVerifC11X$", env, tags=tags, timeout=600)
+    rows = vlib.read_jsonl(out)
+    vlib.cleanup(out)
+    if rc != 0 or not rows:
+        chk.broken("replay run TestVerifC11X failed", o)
+        return None, body
+    return rows[0], body
